@@ -26,6 +26,7 @@ package flight12
 //@ assume-pure HandshakeConfig.SetSession
 //@ assume-pure HandshakeConfig.GetSession
 //@ assume-pure HandshakeConfig.DelSession
+//@ assume-pure HandshakeConfig.CustomCipherSuites
 // Cipher suite descriptors are immutable: these observers are pure functions of the suite object.
 //@ assume-pure CipherSuite.AuthenticationType
 //@ assume-pure CipherSuite.KeyExchangeAlgorithm
@@ -60,6 +61,8 @@ package flight12
 //@ ensures transcript: called("Cache.PullAndMerge!") ==> len(RULES()) == 2
 //@    && RULE(RULES()[0], handshake.TypeClientHello, RULES()[1].Epoch, true)
 //@    && RULE(RULES()[1], handshake.TypeServerHello, RULES()[0].Epoch, false)
+//@ ensures success-shape: result0 != 0 ==> result0 == Flight5b && result1 == nil && result2 == nil
+//@ ensures alert-is-fatal: result1 != nil ==> result1.Level == alert.Fatal && result0 == 0
 //@ ensures keys-installed-first: result0 == Flight5b ==> called("State12.InitCipherSuite") && retErr("State12.InitCipherSuite", 0) == nil
 //@ ensures no-success-on-mismatch: called("bytes.Equal!") && !retBool("bytes.Equal!", 0) ==> result0 == 0 && result1 != nil && result2 != nil
 //@ end
